@@ -27,6 +27,7 @@ RULE = ('(a) every cell of the operator x type x type matrix: 14 binary operator
         'Distinct by expression text + operand values.')
 RULE += ' Also: (d) datetime +- milliseconds and datetime - datetime over years 1-9999 (offset = distance to a second in-range datetime); (e) 9 call forms x 4 routes in which an argument re-binds or first defines the called name (the name is looked up after the arguments); variables spelled null / true / false (the literal wins); calls to spreadsheet aliases with builtins off.'
 RULE += ' Round 7: plus-signed literals; a left operand that re-binds (systemGlobalSet) the global the right operand reads; an exhaustive numeric family - the six arithmetic operators over 32 x 32 special numbers (both zeros, +-infinity, 5e-324, 1e308, 2**53, host integers) by variables and by literal text, expression and script, against IEEE double / exact integer arithmetic (results the statement leaves open are skipped and counted).'
+RULE += ' Round 8: chains of 3-5 terms under operators of one precedence level (string building first) over operands that include values without a string form (NaN / infinity inside a container, a container that contains itself) and probes: the value and the probe order of the whole expression must equal those of evaluating it one operator at a time with the intermediate result held in a variable; containers nested 250-300 levels deep in the operand matrix.'
 ASSUMPTIONS = [
     'a boolean is not a number (value_type, comparison and validation all treat it as a separate type): arithmetic on booleans yields null',
     'x/0, x%0, % with a negative operand, 0**-1, negative**fractional and overflow are indeterminate: the case is discarded for the '
